@@ -61,17 +61,6 @@ def extract(repo, failures):
         d["perEventCatch"] = "QUILL_CATCH_ALL" in pl and "QUILL_CATCH(std::exception" in pl.replace(" ", "").replace("QUILL_CATCH(std::exceptionconst&e)", "QUILL_CATCH(std::exception")
         d["strictMinimum"] = bool(re.search(r"min_ts\s*>\s*te->timestamp", pl))
 
-    # context clean-up: the failure counters are reported right before a context is removed (F24)
-    cc = func_body(bw, r"void\s+_cleanup_invalidated_thread_contexts\s*\(\s*\)\s*\{")
-    if cc is None:
-        failures.append("backend: _cleanup_invalidated_thread_contexts not found")
-        d["cleanupReportsCounter"] = False
-    else:
-        i_loop = cc.find("while (")
-        i_chk = cc.find("_check_failure_counter", max(i_loop, 0))
-        i_rm = cc.find("remove_shared_invalidated_thread_context", max(i_loop, 0))
-        d["cleanupReportsCounter"] = 0 <= i_loop < i_chk < i_rm
-
     # the read loop: stop on ts > ts_now, do-while with capacity and hard-limit exits, commit only if something was read
     rd = func_body(bw, r"size_t\s+_read_and_decode_frontend_queue\s*\([^)]*\)\s*\{")
     pe = func_body(bw, r"bool\s+_populate_transit_event_from_frontend_queue\s*\([^)]*\)\s*\{")
